@@ -72,6 +72,33 @@ def random_sinput(rng, fam, max_obj, max_sp, nf, costs=None, min_obj=2, p_root=0
     return sinput(ot, st, lm, c, syn, root)
 
 
+def nested_ordered_inputs(rng, n, costs, deep=False):
+    """Directed family for the ordered solvers: caterpillar object trees whose
+    ancestors best hold a strict sub-sequence of the root order while a child
+    below holds more than its own leaves (one leaf holds everything, its
+    neighbour a suffix, the leaves below sparse parts of that suffix)."""
+    out = []
+    while len(out) < n:
+        k = rng.choice([3, 4, 4])
+        order = list(range(1, k + 1))
+        ot = gen.caterpillar(5 if deep and rng.random() < 0.4 else 4)
+        st = rng.choice([gen.caterpillar(3), gen.bin_shapes(2)[0], gen.balanced(4) if deep else gen.caterpillar(3)])
+        leaves = proj.leaves_of(ot)
+        syn = [()] * len(ot)
+        suffix = order[rng.randint(1, k - 1):]
+        for i, u in enumerate(leaves):
+            if i == len(leaves) - 1:
+                fams = order                      # the outermost leaf holds everything
+            elif i == len(leaves) - 2:
+                fams = suffix                     # its neighbour lacks the early families
+            else:
+                fams = [f for f in suffix if rng.random() < 0.5] or [rng.choice(suffix)]
+            syn[u - 1] = tuple(fams)
+        # the full leaf fixes the root order: one table per input
+        out.append(sinput(ot, st, gen.random_leaf_map(rng, ot, st), rng.choice(costs), syn))
+    return out
+
+
 SUPER_COSTS = [
     gen.cost(0, 1, 1, 1, 1),
     gen.cost(1, 2, 1, 1, 0),      # free segmental losses
@@ -80,6 +107,9 @@ SUPER_COSTS = [
     gen.cost(0, 0, 1, 0, 0),      # tie-heavy
     gen.cost(1, 1, 0, 2, 1),      # free transfers
     gen.cost(2, 4, 3, 0, 1),      # free full losses
+    gen.cost(0, 1, INF, 2, 1),    # dear full losses, no transfers
+    gen.cost(0, 2, 3, 2, 0),      # dear full losses, free segmental losses
+    gen.cost(1, 1, 1, 3, 2),      # full loss dearer than transfer
 ]
 
 
